@@ -1,9 +1,22 @@
 (** Executable model of effects on top of [Graph]: effect/inner.rs (EffectInner as a
     subscriber: dirty flag + one-slot channel), channel.rs (flag [set] + AtomicWaker),
     effect/effect.rs ([Effect::new], [new_isomorphic], [watch]: the task loop),
-    effect/render_effect.rs (first run at creation), owner.rs (pause / resume / disposal),
+    effect/render_effect.rs (first run at creation), owner.rs (pause / resume / disposal over a
+    TREE of owners: [Owner::pause] / [resume] walk the children lists and set the flag of every
+    descendant; the flag an effect looks at is the one of its own innermost owner; [cleanup]
+    cleans the children first, then drops the owner's own arena nodes),
     and the executor as an explicit run queue: a schedule is the list of [OTick k] / [ORun]
     operations of the history, any order, partial progress.
+
+    The owner tree is static: [par e = Some q] says that the owner effect [e] was created under
+    is a child of the owner effect [q] was created under ([None]: a child of the root).
+
+    computed/selector.rs is modelled by a program transformation (see GraphRun.v): a Selector
+    is a value cell, a cell for the previous value, one trigger signal per key and an internal
+    RenderEffect that stores the new value and writes the triggers of the affected keys.  The
+    real selector walks its keys in FxHashMap order, which the model does not know: the tasks
+    woken by one poll of such an internal effect ([selw e = true]) are put into the run queue in
+    index order, by the model and by the harness-owned executor alike ([canon_wakes]).
 
     One poll of the task of effect [i] is the loop of effect.rs:
 
@@ -28,15 +41,26 @@ Inductive op :=
 | ORead (n : nat)               (* n.get() outside any reactive context *)
 | OTick (k : nat)               (* executor polls the (k mod |ready|)-th ready task *)
 | ORun                          (* executor polls in FIFO order until idle (at most 64 polls) *)
-| OPause (e : nat) | OResume (e : nat)   (* the owner the effect was created under *)
-| ODispose (e : nat)            (* that owner is cleaned up / the RenderEffect is dropped *)
+| OPause (e : nat) | OResume (e : nat)   (* Owner::pause / resume on the owner effect e was created under:
+                                           reaches e and every effect below it in the owner tree *)
+| ODispose (e : nat)            (* the RenderEffect handles of that subtree are dropped, then the owner is cleaned up *)
 | ODropSrc (n : nat).           (* the arena signal / memo n is disposed: value and subscriber set dropped *)
 
 Definition POLL_FUEL : nat := 64.
 Definition RUN_LIMIT : nat := 64.
 
+(* insertion sort of a list of task ids *)
+Fixpoint insert_sorted (x : nat) (l : list nat) : list nat :=
+  match l with
+  | [] => [x]
+  | h :: t => if Nat.leb x h then x :: l else h :: insert_sorted x t
+  end.
+Definition isort (l : list nat) : list nat := fold_right insert_sorted [] l.
+
 Section Prog.
 Variable p : prog.
+Variable par : nat -> option nat.     (* the owner tree (static) *)
+Variable selw : nat -> bool.          (* effect e is the internal effect of a Selector *)
 
 (* the [any] of EffectInner::update_if_necessary: no re-check of the own state *)
 Fixpoint any_plain (c : ctx) (l : list nat) (s : state) : state * bool :=
@@ -122,6 +146,14 @@ Definition poll_task (i : nat) (s : state) : state :=
   | _ => s          (* only effects have tasks *)
   end.
 
+(* the tasks woken during one poll of a selector's internal effect (the part of the run queue
+   beyond its first [n0] entries) are queued in index order *)
+Definition canon_wakes (i n0 : nat) (s : state) : state :=
+  if selw i then set_ready s (firstn n0 (ready s) ++ isort (skipn n0 (ready s))) else s.
+(* what the executor does with a task it has taken from the run queue *)
+Definition poll_sched (i : nat) (s : state) : state :=
+  canon_wakes i (length (ready s)) (poll_task i s).
+
 Fixpoint remove_nth (k : nat) (l : list nat) : list nat :=
   match l, k with
   | [], _ => []
@@ -136,7 +168,7 @@ Fixpoint drain (f : nat) (s : state) : state :=
   | e :: r =>
       match f with
       | O => set_halted (emit EvDiverge s) true
-      | S f => drain f (poll_task e (emit (EvPoll (Some e)) (set_ready s r)))
+      | S f => drain f (poll_sched e (emit (EvPoll (Some e)) (set_ready s r)))
       end
   end.
 
@@ -149,6 +181,38 @@ Definition dispose (e : nat) (s : state) : state :=
     (* Inner::drop wakes the registered waker a last time *)
     if ereg (getn s e) then enqueue e (updn e (fun n => set_ereg n false) s) else s
   else s.
+
+(* ---- the owner tree.  The owner [H e] effect e was created under has the children
+   [I e] (the effect's own owner, made by effect_base / RenderEffect::new: the one whose
+   [paused] flag the task looks at) and [H c] for every effect c with [par c = Some e], in
+   creation (= index) order. *)
+Definition children (o : nat) : list nat :=
+  filter (fun c => is_eff c && match par c with Some q => Nat.eqb q o | None => false end)
+         (seq 0 (length p)).
+(* Owner::pause / Owner::resume: the walk over the children lists (the order in which the flags
+   are set is immaterial) *)
+Fixpoint subtree (f : nat) (o : nat) : list nat :=
+  match f with
+  | O => [o]
+  | S f => o :: flat_map (subtree f) (children o)
+  end.
+Definition set_paused_tree (b : bool) (o : nat) (s : state) : state :=
+  fold_left (fun s e => updn e (fun n => set_epaused n b) s) (subtree (length p) o) s.
+(* Cleanup for RwLock<OwnerInner>: the children are cleaned up first, in order, then the
+   owner's own arena nodes (the stored Effect) are removed *)
+Fixpoint postorder (f : nat) (o : nat) : list nat :=
+  match f with
+  | O => [o]
+  | S f => flat_map (postorder f) (children o) ++ [o]
+  end.
+Definition is_render (i : nat) : bool :=
+  match decl_of p i with DEff ERender _ _ => true | _ => false end.
+(* the harness drops the RenderEffect handles of the subtree (a RenderEffect lives in its handle,
+   not in the arena), then calls cleanup() on the owner *)
+Definition dispose_tree (o : nat) (s : state) : state :=
+  let po := postorder (length p) o in
+  fold_left (fun s e => dispose e s)
+            (filter is_render po ++ filter (fun e => negb (is_render e)) po) s.
 
 Definition step (s : state) (o : op) : state :=
   if halted s then s else
@@ -167,12 +231,12 @@ Definition step (s : state) (o : op) : state :=
       | _ :: _ =>
           let idx := Nat.modulo k (length (ready s)) in
           let e := nth idx (ready s) O in
-          poll_task e (emit (EvPoll (Some e)) (set_ready s (remove_nth idx (ready s))))
+          poll_sched e (emit (EvPoll (Some e)) (set_ready s (remove_nth idx (ready s))))
       end
   | ORun => drain RUN_LIMIT s
-  | OPause e => if is_eff e then updn e (fun n => set_epaused n true) s else s
-  | OResume e => if is_eff e then updn e (fun n => set_epaused n false) s else s
-  | ODispose e => if is_eff e then dispose e s else s
+  | OPause e => if is_eff e then set_paused_tree true e s else s
+  | OResume e => if is_eff e then set_paused_tree false e s else s
+  | ODispose e => if is_eff e then dispose_tree e s else s
   | ODropSrc n => if is_eff n then s
                   else updn n (fun nd => set_subs (set_edone nd true) []) s
   end.
@@ -218,3 +282,8 @@ Definition run_prefix_c (ops : list op) : state := run_ops eff_check_prefix (not
 Definition run_prefix_a (ops : list op) : state := run_ops eff_check (notify_sig_prefix p) ops.
 
 End Prog.
+
+(* a flat owner tree (every effect's owner is a child of the root), no selectors *)
+Definition no_par : nat -> option nat := fun _ => None.
+Definition no_sel : nat -> bool := fun _ => false.
+Definition run_flat (p : prog) (ops : list op) : state := run_fixed p no_par no_sel ops.
